@@ -72,6 +72,11 @@ EXTRA = {
  "C09": " Driver widths writes elements of 2^(7w)-2 .. 2^(7w) bytes with explicit width w (relation WidthExact: honoured exactly or rejected, never widened); the present driver also gives child masters of Full items as Start..End runs, puts size options on End calls (they mean nothing there) and writes one Full item with the unknown-size option (relation FullUnknown: rejected as a size error, or unknown size affected size fields only).",
  "C10": " Driver flush_open calls flush() / into_inner() while known- and unknown-size masters are open and continues with a second document; the monitor also requires (hook) that no master is open after a successful flush().",
  "C11": " The paths driver additionally enumerates, per specification, every chain spelled out by a declared path x every assignment of unknown sizes x every tag, so that the reader-side clause (judged against the chain that remains after closing unknown-size masters) is exercised systematically; a panic of the matcher is recorded as a verdict.",
+ "C01": " The rt driver contains a family of known-size masters whose *body* has exactly 2^(7k)-1 bytes (sum of the children) followed by a global element - the neighbour that shows whether the size field still means 'known size'.",
+ "C02": " The fix driver also re-writes the master-body boundary documents and documents in which an element with an upper-bounded placeholder was put deeper than its maximum (whatever the strict reader still accepts the writer must accept).",
+ "C03": " Generators include NUL characters inside / at the end of strings and integer payloads on the sign boundary.",
+ "C18": " The generated-crate exercise also builds, through the trait, a raw tag for every declared id and hands it to the writer and to the iterator's buffered-tag list (no 'bad specification' panic); the probed tables report whether a placeholder minimum was spelled out ((0-n) vs (-n)).",
+ "C20": " Documents with ids of 5-8 bytes and 8-byte size fields (headers of 13-16 bytes) and corrupt children at the end of buffered masters are part of the async driver; MC_Async also runs a document mode (longer fixed documents x every split).",
  "C19": " Failing calls include Full items whose children are End / Start items that would end the item itself or masters opened before it, or stay open; End calls carrying size options; Full items with the unknown-size option (marked optional: if a writer accepts them the case says nothing about C19).",
 }
 
